@@ -701,3 +701,31 @@ def readfile(ex, fr, st, args, ins):
 @stubset('files')
 def _files():
     return {'#vTempFile': tmpfile, 'io/ioutil.ReadFile': readfile, 'os.ReadFile': readfile}
+
+
+# ---------------------------------------------------------------------------------------------
+# FFT summary (C05): Transform overwrites x with a vector that is a function of the input vector (and the length)
+
+def fft_transform_summary(ex, fr, st, args, ins):
+    f, x = args
+    cells = ex.slice_cells(st, x)
+    N = f[0]
+    if x.len != N:
+        ex.oblige('panic', st, True, 'panic: Input dimension mismatches: FFT is not initialized, or called with wrong input.', ins.get('pos', ''))
+        raise __import__('core').PathDead()
+    key = (N,) + tuple((_arg_key(ex, st, c.re), _arg_key(ex, st, c.im)) for c in cells)
+    tab = ex.__dict__.setdefault('fft_table', {})
+    out = tab.get(key)
+    if out is None:
+        k = len(tab)
+        out = [Cx(FReal(z3.Real('fft!%d!re!%d' % (k, i))), FReal(z3.Real('fft!%d!im!%d' % (k, i)))) for i in range(N)]
+        tab[key] = out
+        ex.__dict__.setdefault('fft_keep', []).append(cells)
+    for i in range(N):
+        ex.store(st, Ptr(x.obj, x.path + (x.off + i,)), out[i])
+    return x
+
+
+@stubset('fft_summary')
+def _fftsum():
+    return {'(github.com/Trisia/randomness/fft.FFT).Transform': fft_transform_summary}
